@@ -39,7 +39,11 @@ try:
     os.remove(os.path.join(repo, "zz_seed_demo_test.go"))
     # run checks from an isolated copy of /verif
     ver = os.path.join(work, "verif")
-    sh("rsync -a --exclude .git --exclude 'build/bundles' --exclude 'build/cases' --exclude replays /verif/ %s/" % ver)
+    # untracked, non-ignored files (work in progress of other agents) are left out
+    others = subprocess.run("git -C /verif ls-files --others --exclude-standard", shell=True, stdout=subprocess.PIPE, text=True).stdout
+    exf = os.path.join(work, "exclude.txt")
+    open(exf, "w").write("".join("/" + l + "\n" for l in others.split("\n") if l))
+    sh("rsync -a --exclude .git --exclude 'build/bundles' --exclude 'build/cases' --exclude replays --exclude-from=%s /verif/ %s/" % (exf, ver))
     os.makedirs(os.path.join(ver, "replays"), exist_ok=True)
     res["checks"] = {}
     for p in props:
